@@ -387,3 +387,8 @@ package openapi3
 //@   modifies nothing
 //@ func SetSchemaRegexCompiler
 //@   modifies nothing
+
+//@ func NewSchemaRef
+//@   modifies nothing
+//@   fresh
+//@   ensures result != nil && result.Ref == ref && result.Value == value
